@@ -141,7 +141,7 @@ theorem shiftOne_sat {env : Env} (hT : TableOk env) {F : Nat} {g : Gss} {m : Bas
     obtain ⟨⟨shd, hshd, hss, hsf⟩, hste⟩ := hm _ _ (baseGet_mem hget)
     rw [head_sat' _ _ _ hshd]
     simp only [obind, addNode_idx]
-    obtain ⟨k1, k2, k3, k4, k5, k6⟩ := addSolution_term (sp := shd.span) hg hshd hhd
+    obtain ⟨k1, k2, k3, k4, k5, k6⟩ := addSolution_term (sp := tk.span) hg hshd hhd
       (by rw [hss]; simp only; rw [hsym]; exact htrans)
       (by rw [hss]; simp only; rw [hsym]) hterm (by rw [hsf, hF])
     refine ⟨k1, k2, ?_⟩
